@@ -157,6 +157,11 @@ func sigFor(p PathSpec, label string, si *shapeInfo) string {
 	case "zap":
 		return "zap/" + p.V[strings.IndexByte(p.V, '/')+1:]
 	case "confmap":
+		if si.arrayOverSecret && (byValueLabel(label) || label == "") {
+			// confmap's encoder has no case for reflect.Array: everything below an
+			// array stays in the Conf as it is, typed, secret included
+			return "confmap/array-not-encoded"
+		}
 		return "confmap"
 	default:
 		return p.K + "/" + p.V
@@ -229,7 +234,7 @@ func otherPaths() []PathSpec {
 		{K: "yaml", V: "yaml.v3"}, {K: "yaml", V: "goyaml.v3"}, {K: "yaml", V: "goyaml.v2"}, {K: "yaml", V: "sigsyaml"}, {K: "yaml", V: "yaml.v3-encoder"},
 		{K: "xml", V: "element"}, {K: "xml", V: "indent"},
 		{K: "gob", V: "encode"},
-		{K: "confmap", V: "marshal"}, {K: "confmap", V: "marshal-ptr"}, {K: "confmap", V: "marshal-field"},
+		{K: "confmap", V: "marshal"}, {K: "confmap", V: "marshal-ptr"}, {K: "confmap", V: "marshal-field"}, {K: "confmap", V: "marshal-map"},
 		{K: "slog", V: "json"}, {K: "slog", V: "text"},
 		{K: "tmpl", V: "text"}, {K: "tmpl", V: "html"},
 	}
@@ -564,10 +569,21 @@ func renderConfmap(variant string, v any) []out {
 		in = &v
 	case "marshal-field":
 		in = fieldHolder{Inner: v, List: []any{v, &v}, Dict: map[string]any{"d": v}}
+	case "marshal-map":
+		// a string map at the top level (what ToStringMap of another Conf, or a
+		// hand-built section, looks like), holding the value at several depths
+		in = map[string]any{"key": v, "ptr": &v, "list": []any{v, []any{v}}, "nested": map[string]any{"n": v, "deeper": map[string]any{"d": []any{v}}}}
 	}
 	conf := confmap.New()
 	err := conf.Marshal(in)
 	o := []out{{"err", reGenKey.ReplaceAllString(errText(err), `"k#"`)}}
+	if variant == "marshal-map" && err != nil {
+		// every entry of the top-level map holds the value, so every entry fails
+		// alike and which one is reported depends on Go's map iteration order:
+		// compare the innermost cause only, search the whole text
+		full := o[0].text
+		o = []out{{"scan:err-full", full}, {"err", full[strings.LastIndex(full, ": ")+1:]}}
+	}
 	m := conf.ToStringMap()
 	// koanf deep-copies the map: pointers kept below arrays (which the encoder
 	// does not descend into) are fresh allocations in every ToStringMap call
@@ -584,7 +600,112 @@ func renderConfmap(variant string, v any) []out {
 		fmt.Fprintf(&sb, "%s=%v\n", k, conf.Get(k))
 	}
 	o = append(o, out{"get", reAddr.ReplaceAllString(sb.String(), "0xPTR")})
+	// By VALUE, not by printing: what a consumer of the Conf gets when it reads
+	// the leaves through reflection / type switches / Unmarshal instead of
+	// formatting them.  rawDump never calls a method of the values.
+	var wb strings.Builder
+	rawDump(&wb, reflect.ValueOf(m), 0)
+	o = append(o, out{"tsm-walk", wb.String()})
+	wb.Reset()
+	for _, k := range keys {
+		wb.WriteString(k + " -> ")
+		rawDump(&wb, reflect.ValueOf(conf.Get(k)), 0)
+		wb.WriteByte('\n')
+	}
+	o = append(o, out{"get-walk", wb.String()})
+	var um map[string]any
+	uerr := conf.Unmarshal(&um)
+	wb.Reset()
+	rawDump(&wb, reflect.ValueOf(um), 0)
+	o = append(o, out{"unmarshal-any", wb.String() + "|" + reGenKey.ReplaceAllString(errText(uerr), `"k#"`)})
 	return o
+}
+
+// byValueLabel: the outputs of the confmap path that read the Conf by value.
+func byValueLabel(label string) bool {
+	return label == "tsm-walk" || label == "get-walk" || label == "unmarshal-any"
+}
+
+// rawDump writes a value as a reflective consumer sees it: dynamic type and
+// raw content of every leaf, never through String/Format/Marshal* methods,
+// never an address.
+func rawDump(w *strings.Builder, rv reflect.Value, depth int) {
+	if !rv.IsValid() {
+		w.WriteString("nil")
+		return
+	}
+	if depth > 24 {
+		w.WriteString("…")
+		return
+	}
+	t := rv.Type()
+	switch rv.Kind() {
+	case reflect.Interface, reflect.Pointer:
+		if rv.IsNil() {
+			w.WriteString("nil")
+			return
+		}
+		if rv.Kind() == reflect.Pointer {
+			w.WriteString("&")
+		}
+		rawDump(w, rv.Elem(), depth+1)
+	case reflect.String:
+		fmt.Fprintf(w, "%s(%q)", t, rv.String())
+	case reflect.Bool:
+		fmt.Fprintf(w, "%s(%v)", t, rv.Bool())
+	case reflect.Int, reflect.Int8, reflect.Int16, reflect.Int32, reflect.Int64:
+		fmt.Fprintf(w, "%s(%d)", t, rv.Int())
+	case reflect.Uint, reflect.Uint8, reflect.Uint16, reflect.Uint32, reflect.Uint64, reflect.Uintptr:
+		fmt.Fprintf(w, "%s(%d)", t, rv.Uint())
+	case reflect.Float32, reflect.Float64:
+		fmt.Fprintf(w, "%s(%v)", t, rv.Float())
+	case reflect.Slice, reflect.Array:
+		if rv.Kind() == reflect.Slice && t.Elem().Kind() == reflect.Uint8 {
+			fmt.Fprintf(w, "%s(%q)", t, rv.Bytes())
+			return
+		}
+		w.WriteString(t.String() + "[")
+		for i := 0; i < rv.Len(); i++ {
+			if i > 0 {
+				w.WriteString(", ")
+			}
+			rawDump(w, rv.Index(i), depth+1)
+		}
+		w.WriteString("]")
+	case reflect.Map:
+		type kv struct {
+			k string
+			v reflect.Value
+		}
+		var es []kv
+		for it := rv.MapRange(); it.Next(); {
+			var kb strings.Builder
+			rawDump(&kb, it.Key(), depth+1)
+			es = append(es, kv{kb.String(), it.Value()})
+		}
+		sort.Slice(es, func(i, j int) bool { return es[i].k < es[j].k })
+		w.WriteString(t.String() + "{")
+		for i, e := range es {
+			if i > 0 {
+				w.WriteString(", ")
+			}
+			w.WriteString(e.k + ": ")
+			rawDump(w, e.v, depth+1)
+		}
+		w.WriteString("}")
+	case reflect.Struct:
+		w.WriteString(t.String() + "{")
+		for i := 0; i < rv.NumField(); i++ {
+			if i > 0 {
+				w.WriteString(", ")
+			}
+			w.WriteString(t.Field(i).Name + ": ")
+			rawDump(w, rv.Field(i), depth+1)
+		}
+		w.WriteString("}")
+	default: // chan, func, complex, unsafe pointer: the kind is all a consumer can use
+		w.WriteString(t.String() + "(" + rv.Kind().String() + ")")
+	}
 }
 
 type objWrap struct{ v any }
